@@ -22,7 +22,8 @@
     45b8a77  operators on a visual BLOCK selection include the column under the cursor,
     0ae97d1  (found by C05) `paste_clipboard_data` with a count `≤ 0` returns the document unchanged.
   Kept as it is in the code (observed, not part of C09): kill-word with a NEGATIVE argument passes a
-  negative count to `Buffer.delete`, which removes `text_after_cursor[:-k]` (forward).
+  negative count to `Buffer.delete`, which removes `text_after_cursor[:-k]` (forward) — unless the
+  probe `Gen.C09.killWordNegFixed` finds the repair proposed by C01 in the tree (then it kills backward).
 
   Conventions: `reSpace` models regex `\s` (runtime, parameter).  Core Lean only.
 -/
@@ -258,10 +259,17 @@ def killLineK (b : Buf) (arg : Int) : Kill :=
   else if b.text[b.cur]? = some '\n' then Kill.ofDel (delete b 1)
   else Kill.ofDel (delete b (lineAfter b).length)
 
-/-- `kill-word` -/
+/-- `kill-word`.  With a negative argument `pos` is negative: the code as it is passes it to
+    `Buffer.delete`; after proposed_fixes/C01-kill-word-negative-arg.diff it kills backward with
+    `delete_before_cursor(-pos)`.  Which of the two the tree does is probed on every run
+    (`Gen.C09.killWordNegFixed`). -/
 def killWordK (reSpace : Char → Bool) (b : Buf) (arg : Int) : Kill :=
   match findNextWordEnding reSpace b arg with
-  | some pos => if pos ≠ 0 then Kill.ofDel (delete b pos) else Kill.nothing b
+  | some pos =>
+    if pos ≠ 0 then
+      if Gen.C09.killWordNegFixed = true ∧ pos < 0 then Kill.ofDel (deleteBefore b (-pos).toNat)
+      else Kill.ofDel (delete b pos)
+    else Kill.nothing b
   | none => Kill.nothing b
 
 /-- `unix-word-rubout` (WORD = True) / `backward-kill-word` (WORD = False) -/
@@ -281,6 +289,8 @@ def lineDiscardK (b : Buf) : Kill :=
     as far as `event.is_repeat` of the word-kill commands can see it -/
 inductive Handler
   | killWord | rubout | backKill | other
+  /-- `c-delete`, the second key bound to kill-word (a Binding object of its own; `Model/C09Ext.lean`) -/
+  | killWordC
 deriving Repr, DecidableEq
 
 structure St where
